@@ -2,77 +2,46 @@
 """
 Re-evaluate every seeded change under /verif/seeded against the current checks:
   reeval_seeded.py [id ...]
-Each patch is applied in a scratch worktree of /repo's HEAD (created under /tmp and removed at the
-end), all 15 quick checks run on it with VERIF_REPO pointing there (in parallel), and the table
+Each patch is applied (three-way if its context moved) in a scratch worktree of /repo's HEAD (a pool of
+eight under /tmp, removed at the end), the quick rules of all 15 properties run on it, and the table
 `reported_now` of the change's meta.json is rewritten.  Nothing under /repo is touched.
 """
 import json
 import os
-import subprocess
 import sys
-import tempfile
-from concurrent.futures import ThreadPoolExecutor
 
-VERIF = os.path.dirname(os.path.dirname(os.path.abspath(__file__)))
+sys.path.insert(0, os.path.dirname(os.path.abspath(__file__)))
+from _corpus import VERIF, evaluate, run  # noqa: E402
+
 SEEDED = os.path.join(VERIF, "seeded")
-PROPS = ["C01", "C02", "C04", "C07", "C10", "C11", "C12", "C13", "C14", "C15", "C16", "C17", "C18", "C19", "C20"]
-
-
-def run(cmd, cwd=None, env=None):
-    proc = subprocess.run(cmd, cwd=cwd, env=env, capture_output=True, text=True)
-    return proc.returncode, proc.stdout + proc.stderr
-
-
-def check(prop, worktree):
-    env = dict(os.environ, VERIF_REPO=worktree, VERIF_EVIDENCE_DIR=tempfile.mkdtemp(prefix="seed-ev-"))
-    code, out = run(["/venv/bin/python", os.path.join(VERIF, "check.py"), prop], cwd=VERIF, env=env)
-    rules = sorted({line.strip().split(" ")[0] for line in out.splitlines() if line.startswith("  R")})
-    return prop, code, rules, [l for l in out.splitlines() if l.startswith("ANALYSIS-ERROR")][:1]
 
 
 def main():
     wanted = sys.argv[1:]
-    worktree = tempfile.mkdtemp(prefix="reeval-", dir="/tmp")
-    os.rmdir(worktree)
-    code, out = run(["git", "-C", "/repo", "worktree", "add", "--detach", worktree, "HEAD"])
-    if code != 0:
-        print(out)
-        return 2
+    idents = [i for i in sorted(os.listdir(SEEDED)) if os.path.exists(os.path.join(SEEDED, i, "meta.json")) and (not wanted or i in wanted)]
     head = run(["git", "-C", "/repo", "rev-parse", "--short", "HEAD"])[1].strip()
-    try:
-        for ident in sorted(os.listdir(SEEDED)):
-            directory = os.path.join(SEEDED, ident)
-            meta_path = os.path.join(directory, "meta.json")
-            if not os.path.exists(meta_path) or (wanted and ident not in wanted):
-                continue
-            with open(meta_path, encoding="utf-8") as handle:
-                meta = json.load(handle)
-            run(["git", "checkout", "--", "."], cwd=worktree)
-            code, out = run(["git", "apply", os.path.join(directory, "patch.diff")], cwd=worktree)
-            if code != 0:  # context moved by a later fix: commit: try a three-way merge of the hunks
-                run(["git", "checkout", "--", "."], cwd=worktree)
-                code, out = run(["git", "apply", "--3way", os.path.join(directory, "patch.diff")], cwd=worktree)
-                if code == 0:
-                    run(["git", "reset", "-q"], cwd=worktree)
-                else:
-                    run(["git", "checkout", "--", "."], cwd=worktree)
-                    run(["git", "reset", "-q", "--hard"], cwd=worktree)
-            if code != 0:
-                meta["reported_now"] = {"tree": head, "applies": False}
-                print(f"{ident}: patch does not apply to {head}")
-            else:
-                with ThreadPoolExecutor(max_workers=15) as pool:
-                    results = list(pool.map(lambda p: check(p, worktree), PROPS))
-                fired = {prop: rules for prop, code, rules, _ in results if code == 1}
-                errors = {prop: err for prop, code, _, err in results if code == 2}
-                meta["reported_now"] = {"tree": head, "applies": True, "violations": fired, "analysis_errors": errors}
-                own = meta["breaks_property"] in fired
-                print(f"{ident}: {'own check' if own else 'OTHER' if fired else 'MISSED'} {fired} {errors or ''}")
-            with open(meta_path, "w", encoding="utf-8") as handle:
-                json.dump(meta, handle, indent=1)
-                handle.write("\n")
-    finally:
-        run(["git", "-C", "/repo", "worktree", "remove", "--force", worktree])
+    results = evaluate([(i, os.path.join(SEEDED, i, "patch.diff")) for i in idents])
+    tally = {"own": 0, "other": 0, "missed": 0, "stale": 0}
+    for ident in idents:
+        meta_path = os.path.join(SEEDED, ident, "meta.json")
+        with open(meta_path, encoding="utf-8") as handle:
+            meta = json.load(handle)
+        verdicts = results[ident]
+        if verdicts is None:
+            meta["reported_now"] = {"tree": head, "applies": False}
+            tally["stale"] += 1
+            print(f"{ident}: patch does not apply to {head}")
+        else:
+            fired = {prop: text.split(" :: ")[0].split() for prop, (status, text) in verdicts.items() if status == "VIOLATION"}
+            errors = {prop: [text[:200]] for prop, (status, text) in verdicts.items() if status == "ANALYSIS-ERROR"}
+            meta["reported_now"] = {"tree": head, "applies": True, "violations": fired, "analysis_errors": errors}
+            own = meta["breaks_property"] in fired
+            tally["own" if own else "other" if fired else "missed"] += 1
+            print(f"{ident}: {'own check' if own else 'OTHER' if fired else 'MISSED'} {fired} {errors or ''}")
+        with open(meta_path, "w", encoding="utf-8") as handle:
+            json.dump(meta, handle, indent=1)
+            handle.write("\n")
+    print(tally)
     return 0
 
 
